@@ -377,7 +377,7 @@ func check(id, tier string) int {
 	seed, _ := strconv.ParseInt(os.Getenv("VERIF_SEED"), 10, 64)
 	pl := planOf(id)
 	bin := build(pl.race)
-	if id == "C19" || id == "C16" || id == "C02" {
+	if id == "C19" || id == "C16" {
 		os.Setenv("PIKEMC_REALBIN", buildReal(bin)) // the real-process tiers run pike's own main()
 	}
 	n := pl.shardsQuick
@@ -688,7 +688,7 @@ func main() {
 		var r replay
 		json.Unmarshal(b, &r)
 		bin := build(planOf(r.Property).race)
-		if r.Property == "C19" || r.Property == "C16" || r.Property == "C02" {
+		if r.Property == "C19" || r.Property == "C16" {
 			os.Setenv("PIKEMC_REALBIN", buildReal(bin))
 		}
 		cmd := exec.Command(bin, "-replay", os.Args[2])
